@@ -148,7 +148,7 @@ pub fn gen_name(r: &mut Rng, o: &GOpts) -> String {
     s
 }
 
-/// A non-empty value line: does not start with a blank; `cont` lines do not start with '#'.
+/// A non-empty value line: does not start with a blank.
 pub fn gen_line(r: &mut Rng, o: &GOpts, uniq: &mut u32, cont: bool) -> String {
     *uniq += 1;
     let mut s = String::new();
@@ -178,9 +178,8 @@ pub fn gen_line(r: &mut Rng, o: &GOpts, uniq: &mut u32, cont: bool) -> String {
     if r.chance(1, 8) {
         s.push_str("  ");
     }
-    if cont && s.starts_with('#') {
-        s.insert(0, 'x');
-    }
+    // (a continuation line may start with '#': only a '#' in column 0 starts a comment)
+    let _ = cont;
     debug_assert!(!s.starts_with(' ') && !s.starts_with('\t') && !s.is_empty());
     s
 }
